@@ -160,8 +160,9 @@ Proof.
   eexists; vm_compute; reflexivity.
 Qed.
 
-(* fast_atoi<int> (F09, partly repaired by a8219b1): an optional '-' and at most 9 digits never
-   overflow; the edges of the int range are exact; what remains is the missing range test *)
+(* fast_atoi<int> (F09): the int accumulation of a8219b1 (atoi_*_orig) never overflowed on an
+   optional '-' plus at most 9 digits, did at the first step beyond the int range; the unsigned
+   accumulation of 1965750 has no UB and returns the same value wherever the old one was defined *)
 Lemma atoi_digits_safe (neg : bool) : forall (l : list N) (r : Z),
   forallb is_digit l = true ->
   (0 <= (if neg then - r else r))%Z ->
@@ -186,9 +187,9 @@ Proof.
   rewrite Hs. apply IH; [exact Hd| |]; destruct neg; nia.
 Qed.
 
-Lemma c03_fast_atoi_safe_partial_lemma s : small_int_text s = true -> atoi_ub s = false.
+Lemma c03_fast_atoi_orig_safe_partial_lemma s : small_int_text s = true -> atoi_ub_orig s = false.
 Proof.
-  unfold small_int_text, atoi_ub, atoi_run. destruct (cstr s) as [|c rest]; [reflexivity|].
+  unfold small_int_text, atoi_ub_orig, atoi_run_orig. destruct (cstr s) as [|c rest]; [reflexivity|].
   assert (Hpow : forall l : list N, lenN l <= 9 -> (10 ^ Z.of_nat (List.length l) <= 1000000000)%Z).
   { intros l Hl. rewrite lenN_length in Hl. change 1000000000%Z with (10 ^ 9)%Z.
     apply Z.pow_le_mono_r; lia. }
@@ -197,15 +198,75 @@ Proof.
   - apply (atoi_digits_safe false); [exact Hd|lia|]. pose proof (Hpow _ Hl). lia.
 Qed.
 
-Lemma c03_atoi_ub_lemma :
-  atoi_ub (bytes_of_string "2147483647") = false /\ atoi_ub (bytes_of_string "-2147483648") = false /\
-  atoi_ub (bytes_of_string "2147483648") = true /\ atoi_ub (bytes_of_string "-2147483649") = true /\
-  atoi_ub (bytes_of_string "99999999999") = true /\ atoi_ub (bytes_of_string "1e3") = false /\
-  atoi_val (bytes_of_string "-5") = (-5)%Z /\ atoi_val (bytes_of_string "1e3") = 633%Z.
+(* the repair changes no result: where the int accumulation stayed in range, the wrapped unsigned
+   accumulation gives the same value *)
+Lemma to_i32_mod s : in_i32 s = true -> to_i32 (s mod two32) = s.
+Proof.
+  unfold in_i32, to_i32, two32, two31. intros H. apply andb_true_iff in H. destruct H as [H1 H2].
+  apply Z.leb_le in H1. apply Z.ltb_lt in H2. rewrite Z.mod_mod by lia.
+  destruct (Z_lt_le_dec s 0) as [Hn|Hn].
+  - replace (s mod 4294967296)%Z with (s + 4294967296)%Z.
+    + destruct (s + 4294967296 <? 2147483648)%Z eqn:E; [apply Z.ltb_lt in E; lia|lia].
+    + symmetry. replace s with ((s + 4294967296) + (-1) * 4294967296)%Z at 1 by lia.
+      rewrite Z.mod_add by lia. apply Z.mod_small. lia.
+  - rewrite Z.mod_small by lia. destruct (s <? 2147483648)%Z eqn:E; [reflexivity|apply Z.ltb_ge in E; lia].
+Qed.
+
+Lemma mod_step_sub a b M : ((a mod M * 10 - b) mod M = (a * 10 - b) mod M)%Z.
+Proof. rewrite Zminus_mod. rewrite Zmult_mod_idemp_l. rewrite <- Zminus_mod. reflexivity. Qed.
+Lemma mod_step_add a b M : ((a mod M * 10 + b) mod M = (a * 10 + b) mod M)%Z.
+Proof. rewrite Zplus_mod. rewrite Zmult_mod_idemp_l. rewrite <- Zplus_mod. reflexivity. Qed.
+
+Lemma atoi_ub_sticky (neg : bool) : forall (l : list N) (r v : Z), fold_left (atoi_ub_step neg) l (true, r) <> (false, v).
+Proof.
+  induction l as [|c l IH]; intros r v; [discriminate|]. cbn [fold_left atoi_ub_step]. apply IH.
+Qed.
+
+Lemma atoi_fold_agree (neg : bool) : forall (l : list N) (r v : Z),
+  in_i32 r = true ->
+  fold_left (atoi_ub_step neg) l (false, r) = (false, v) ->
+  in_i32 v = true /\
+  (fold_left (if neg then atoi_step_neg two32 else atoi_step two32) l (r mod two32) = v mod two32)%Z.
+Proof.
+  induction l as [|ch l IH]; intros r v Hr H.
+  - cbn in H. injection H as <-. split; [exact Hr|reflexivity].
+  - cbn [fold_left] in H |- *. unfold atoi_ub_step at 2 in H.
+    destruct (in_i32 (r * 10)); cbn [negb] in H; [|exfalso; exact (atoi_ub_sticky _ _ _ _ H)].
+    set (d := (schar ch - 48)%Z) in *.
+    destruct (in_i32 (if neg then r * 10 - d else r * 10 + d)) eqn:Es; [|exfalso; exact (atoi_ub_sticky _ _ _ _ H)].
+    destruct (IH _ _ Es H) as [Hv IHe]. split; [exact Hv|]. rewrite <- IHe. f_equal.
+    destruct neg; unfold atoi_step_neg, atoi_step; fold d.
+    + apply mod_step_sub.
+    + replace (r mod two32 * 10 + schar ch - 48)%Z with (r mod two32 * 10 + d)%Z by (unfold d; lia).
+      apply mod_step_add.
+Qed.
+
+Lemma c03_fast_atoi_agree_lemma s : atoi_ub_orig s = false -> atoi_val s = atoi_val_orig s.
+Proof.
+  unfold atoi_ub_orig, atoi_val_orig, atoi_val, atoi_run_orig, fast_atoi_i32.
+  destruct (cstr s) as [|c rest]; [reflexivity|].
+  destruct (c =? 45).
+  - destruct (fold_left (atoi_ub_step true) rest (false, 0%Z)) as [ub v] eqn:E. cbn [fst snd]. intros ->.
+    destruct (atoi_fold_agree true rest 0%Z v eq_refl E) as [Hv H]. cbn beta iota in H.
+    change (0 mod two32)%Z with 0%Z in H. rewrite H. apply to_i32_mod. exact Hv.
+  - destruct (fold_left (atoi_ub_step false) (c :: rest) (false, 0%Z)) as [ub v] eqn:E. cbn [fst snd]. intros ->.
+    destruct (atoi_fold_agree false (c :: rest) 0%Z v eq_refl E) as [Hv H]. cbn beta iota in H.
+    change (0 mod two32)%Z with 0%Z in H. rewrite H. apply to_i32_mod. exact Hv.
+Qed.
+
+Lemma c03_fast_atoi_safe_lemma : forall s, atoi_ub s = false.
+Proof. reflexivity. Qed.
+
+Lemma c03_atoi_ub_orig_lemma :
+  atoi_ub_orig (bytes_of_string "2147483647") = false /\ atoi_ub_orig (bytes_of_string "-2147483648") = false /\
+  atoi_ub_orig (bytes_of_string "2147483648") = true /\ atoi_ub_orig (bytes_of_string "-2147483649") = true /\
+  atoi_ub_orig (bytes_of_string "99999999999") = true /\ atoi_ub_orig (bytes_of_string "1e3") = false /\
+  atoi_val (bytes_of_string "-5") = (-5)%Z /\ atoi_val (bytes_of_string "1e3") = 633%Z /\
+  atoi_val (bytes_of_string "2147483648") = (-2147483648)%Z /\ atoi_val (bytes_of_string "99999999999") = 1215752191%Z.
 Proof.
   split; [vm_compute; reflexivity|]. split; [vm_compute; reflexivity|]. split; [vm_compute; reflexivity|].
   split; [vm_compute; reflexivity|]. split; [vm_compute; reflexivity|]. split; [vm_compute; reflexivity|].
-  split; vm_compute; reflexivity.
+  split; [vm_compute; reflexivity|]. split; [vm_compute; reflexivity|]. split; vm_compute; reflexivity.
 Qed.
 
 (* date/time parsers: before da4ab8c a month 14 indexed mon_days out of bounds and a char below '0'
